@@ -4,6 +4,7 @@ import OrasModel.Driver.R
 import OrasModel.Driver.Cp
 import OrasModel.Driver.Fr
 import OrasModel.Driver.O
+import OrasModel.Driver.Cr
 open Oras.Driver
 
 structure DState where
@@ -24,6 +25,9 @@ def handle (st : DState) (line : String) : DState × String :=
   match splitWs line with
   | "case" :: _ => ({}, "m=ok s=ok")
   | "g" :: rest => answer (G.step st.g rest) st (fun g => { st with g := g })
+  | "cr" :: rest => (match Cr.step rest with
+      | some (m, s) => (st, s!"m={m} s={s}")
+      | none => (st, "bad-op"))
   | "ref" :: rest => (match R.step rest with
       | some (m, s) => (st, s!"m={m} s={s}")
       | none => (st, "bad-op"))
